@@ -200,6 +200,10 @@ where
         binders: &CanonicalVarKinds<I>,
     ) -> Vec<ImplId<I>> {
         self.record(trait_id);
+        // Items that only occur in the arguments of the goal itself (`Baz` in
+        // `Foo<Baz>: Bar`) are never asked about through any other callback, but
+        // the logged program has to declare them for the goal to be expressible.
+        self.record_all(id_collector::collect_ids(self.ws.db(), &parameters));
         let impl_ids = self.ws.db().impls_for_trait(trait_id, parameters, binders);
         self.record_all(impl_ids.iter().copied());
         impl_ids
@@ -265,6 +269,7 @@ where
         &self,
         environment: &chalk_ir::Environment<I>,
     ) -> chalk_ir::ProgramClauses<I> {
+        self.record_all(id_collector::collect_ids(self.ws.db(), environment));
         self.ws.db().program_clauses_for_env(environment)
     }
 
